@@ -84,6 +84,7 @@ Proof.
   destruct ((negb (n =? 0)%Z || te_chunked ri) && negb (mc f)); [constructor|].
   destruct (n <? 0)%Z; [apply reject_ok; cbn; auto|].
   destruct (negb (is10 (rver ri)) && negb (has_host ri)); [apply reject_ok; cbn; auto|].
+  destruct (host_ctl ri); [apply reject_ok; cbn; auto|].
   destruct (a_path a) as [|[|]]; [constructor| |constructor; cbn; auto].
   unfold del_buf. rewrite B. constructor.
 Qed.
@@ -243,20 +244,21 @@ Definition accepted (c : conn) (a : answers) (ri : reqinfo) : Prop :=
     /\ (cli c = Some ri \/ (cli c = None /\ a_req a = Ret ri /\ fst (rver ri) = 1))
     /\ a_clen a = Ret n /\ (0 <= n)%Z
     /\ ((n <> 0%Z \/ te_chunked ri = true) -> mc f = true)
-    /\ (is10 (rver ri) = true \/ has_host ri = true)
+    /\ (is10 (rver ri) = true \/ has_host ri = true) /\ host_ctl ri = false
     /\ a_path a = Ret PCanon.
 
 Lemma body_gate_request c a f ri tags ri' :
   hres_of (body_gate c a f ri tags) = HRet [IRequest ri'] ->
   ri' = ri /\ exists n, a_clen a = Ret n /\ (0 <= n)%Z
     /\ ((n <> 0%Z \/ te_chunked ri = true) -> mc f = true)
-    /\ (is10 (rver ri) = true \/ has_host ri = true) /\ a_path a = Ret PCanon.
+    /\ (is10 (rver ri) = true \/ has_host ri = true) /\ host_ctl ri = false /\ a_path a = Ret PCanon.
 Proof.
   unfold body_gate, hres_of, reject.
   destruct (a_clen a) as [|n]; [discriminate|].
   destruct ((negb (n =? 0)%Z || te_chunked ri) && negb (mc f)) eqn:G; [discriminate|].
   destruct (n <? 0)%Z eqn:Neg; [destruct (del_buf c); discriminate|].
   destruct (negb (is10 (rver ri)) && negb (has_host ri)) eqn:Hh; [destruct (del_buf c); discriminate|].
+  destruct (host_ctl ri) eqn:Hc; [destruct (del_buf c); discriminate|].
   destruct (a_path a) as [|[|]]; [discriminate| |discriminate].
   destruct (del_buf c); [|discriminate]. cbn. intros [= <-]. split; [reflexivity|].
   exists n. repeat split; auto.
@@ -277,11 +279,11 @@ Proof.
   2:{ destruct (perrno f); [|discriminate]. destruct (a_errreq a) as [|[v0 h0]]; [discriminate|].
       unfold reject. destruct (del_buf c); discriminate. }
   unfold headers_done. destruct (cli c) as [r0|] eqn:C.
-  - intros H. apply body_gate_request in H as (-> & n & Hn & H0 & Hm & Hho & Hp).
+  - intros H. apply body_gate_request in H as (-> & n & Hn & H0 & Hm & Hho & Hct & Hp).
     exists f, n. repeat split; auto.
   - destruct (a_req a) as [|r1] eqn:Rq; [discriminate|].
     destruct (fst (rver r1) =? 1) eqn:Mj; cbn [negb]; [|discriminate].
-    intros H. apply body_gate_request in H as (-> & n & Hn & H0 & Hm & Hho & Hp).
+    intros H. apply body_gate_request in H as (-> & n & Hn & H0 & Hm & Hho & Hct & Hp).
     exists f, n. repeat split; auto. right. repeat split; auto. now apply N.eqb_eq.
 Qed.
 
@@ -372,6 +374,7 @@ Proof.
   destruct ((negb (n =? 0)%Z || te_chunked ri) && negb (mc f)); [exact Hi|].
   destruct (n <? 0)%Z; [apply reject_st|].
   destruct (negb (is10 (rver ri)) && negb (has_host ri)); [apply reject_st|].
+  destruct (host_ctl ri); [apply reject_st|].
   destruct (a_path a) as [|[|]]; [exact Hi| |exact I].
   destruct (del_buf c); exact I.
 Qed.
@@ -432,3 +435,245 @@ Qed.
 
 Corollary reachable_inv secure h s : inv (fst (run secure empty_tables h) s).
 Proof. apply run_inv. intros x. apply inv_empty. Qed.
+
+(* ================= second layer: classify ================= *)
+
+Definition dirty (c : N) : bool := (c =? 92) || (128 <=? c) || (c =? 91) || (c =? 93).
+Definition clean (bs : list N) : Prop := forall c, In c bs -> dirty c = false.
+
+Lemma cut_crlf_in l : forall x y, cut_crlf l = Some (x, y) ->
+  (forall c, In c x -> In c l) /\ (forall c, In c y -> In c l).
+Proof.
+  induction l as [|a t IH]; intros x y H; [discriminate|].
+  cbn [cut_crlf] in H. destruct t as [|b t']; [discriminate|].
+  destruct ((a =? 13) && (b =? 10)).
+  - injection H as <- <-. split; [intros c []|]. intros c I. right. right. exact I.
+  - destruct (cut_crlf (b :: t')) as [[x' y']|] eqn:E; [|discriminate]. injection H as <- <-.
+    destruct (IH x' y' eq_refl) as [H1 H2]. split.
+    + intros c [->|I]; [now left|right; now apply H1].
+    + intros c I. right. now apply H2.
+Qed.
+
+Lemma cut_crlf2_in l : forall x, cut_crlf2 l = Some x -> forall c, In c x -> In c l.
+Proof.
+  induction l as [|a t IH]; intros x H; [discriminate|].
+  cbn [cut_crlf2] in H. destruct (starts_with [13; 10; 13; 10] (a :: t)).
+  - injection H as <-. intros c [].
+  - destruct (cut_crlf2 t) as [x'|]; [|discriminate]. injection H as <-.
+    intros c [->|I]; [now left|right; now apply (IH x' eq_refl)].
+Qed.
+
+Lemma drop_sp_in l c : In c (drop_sp l) -> In c l.
+Proof.
+  induction l as [|a t IH]; [intros []|]. cbn. destruct (is_sp a); [intros I; right; now apply IH|auto].
+Qed.
+
+Lemma take_tok_in l : forall x y, take_tok l = (x, y) ->
+  (forall c, In c x -> In c l) /\ (forall c, In c y -> In c l).
+Proof.
+  induction l as [|a t IH]; intros x y H; cbn in H.
+  - injection H as <- <-. split; intros c [].
+  - destruct (is_sp a).
+    + injection H as <- <-. split; [intros c []|auto].
+    + destruct (take_tok t) as [x' y'] eqn:E. injection H as <- <-. destruct (IH x' y' eq_refl) as [H1 H2].
+      split; [intros c [->|I]; [now left|right; now apply H1]|intros c I; right; now apply H2].
+Qed.
+
+Lemma existsb_clean {l : list N} (f : N -> bool) :
+  (forall c, In c l -> f c = false) -> existsb f l = false.
+Proof. induction l as [|a t IH]; intros H; [reflexivity|]. cbn. rewrite (H a (or_introl eq_refl)). apply IH. intros c I. apply H. now right. Qed.
+
+Lemma first_line_definite line : clean line -> first_line line <> Unmodelled.
+Proof.
+  intros C. unfold first_line.
+  rewrite (existsb_clean (fun c => (c =? 92) || (128 <=? c))).
+  2:{ intros c I. specialize (C c I). unfold dirty in C. repeat (apply orb_false_iff in C as [C ?]). now rewrite C, H1. }
+  unfold split3. destruct (take_tok (drop_sp line)) as [t1 r1] eqn:E1.
+  destruct (take_tok (drop_sp r1)) as [t2 r2] eqn:E2.
+  destruct t1 as [|a1 t1]; [discriminate|]. destruct t2 as [|a2 t2]; [discriminate|].
+  destruct (drop_sp r2) as [|a3 r3]; [discriminate|].
+  destruct (negb (method_ok (a1 :: t1))); [discriminate|].
+  rewrite (existsb_clean (fun c => (c =? 91) || (c =? 93))).
+  - destruct (has_fragment (a2 :: t2)); [discriminate|]. destruct (version_ok (a3 :: r3)); discriminate.
+  - intros c I. apply (take_tok_in _ _ _ E2) in I. apply drop_sp_in in I.
+    apply (take_tok_in _ _ _ E1) in I. apply drop_sp_in in I. specialize (C c I). unfold dirty in C.
+    repeat (apply orb_false_iff in C as [C ?]). now rewrite H0, H.
+Qed.
+
+Lemma header_block_definite blk : clean blk -> header_block blk <> Unmodelled.
+Proof.
+  intros C. unfold header_block. rewrite (existsb_clean (fun c => c =? 92)).
+  - destruct (split_crlf (length blk) blk) as [|l1 ls]; [discriminate|].
+    destruct (header_line_ok l1 && forallb (fun l => is_cont l || header_line_ok l) ls); discriminate.
+  - intros c I. specialize (C c I). unfold dirty in C. repeat (apply orb_false_iff in C as [C ?]). exact C.
+Qed.
+
+(* on every byte string without backslash, bytes >= 128 and square brackets the verdict is definite *)
+Theorem classify_definite bs : clean bs -> classify bs <> Unmodelled.
+Proof.
+  intros C. unfold classify. destruct (cut_crlf bs) as [[line rest]|] eqn:E; [|discriminate].
+  destruct (cut_crlf_in _ _ _ E) as [H1 H2].
+  assert (CL : clean line) by (intros c I; apply C, H1, I).
+  pose proof (first_line_definite line CL) as F.
+  destruct (first_line line); try discriminate; try (exfalso; now apply F).
+  destruct (starts_with [13; 10] rest); [discriminate|].
+  destruct (cut_crlf2 rest) as [blk|] eqn:E2; [|discriminate].
+  apply header_block_definite. intros c I. apply C, H2. eapply cut_crlf2_in; eauto.
+Qed.
+
+(* composition with the connection model *)
+Theorem bad_is_rejected secure c a bs e v hd :
+  classify bs = Bad e -> exec_agrees a (classify bs) ->
+  buf c = true \/ a_ssl a = Ret false -> a_errreq a = Ret (v, hd) ->
+  effs_of (read_conn secure c a)
+  = [EReject 400; EWrite 400 (resp_version (match e with BadFirstLine => (1, 1) | _ => v end)) true
+                         (match e with BadFirstLine => false | _ => hd end); EClose]
+  /\ ~ In EDispatch (effs_of (read_conn secure c a))
+  /\ conn_of (read_conn secure c a) = empty_conn.
+Proof.
+  intros Hc Ha Hs Hr. rewrite Hc in Ha. destruct Ha as [m Hx].
+  destruct (parser_error_reported secure c a _ e v hd Hs Hx eq_refl eq_refl Hr) as [E1 E2].
+  split; [exact E1|]. split; [|exact E2]. rewrite E1. intros F. inl F.
+Qed.
+
+Theorem needmore_waits secure c a bs :
+  classify bs = NeedMore -> exec_agrees a (classify bs) ->
+  buf c = true \/ a_ssl a = Ret false ->
+  effs_of (read_conn secure c a) = [] /\ buf (conn_of (read_conn secure c a)) = true.
+Proof.
+  intros Hc Ha Hs. rewrite Hc in Ha. destruct Ha as [m Hx].
+  unfold read_conn, on_read. destruct (buf c) eqn:B.
+  - unfold after_exec. rewrite Hx. cbn. split; [reflexivity|exact B].
+  - destruct Hs as [Hs|Hs]; [discriminate|]. rewrite Hs. cbn [andb]. unfold after_exec. rewrite Hx. cbn. split; reflexivity.
+Qed.
+
+Theorem classify_total bs : clean bs ->
+  classify bs = NeedMore \/ (exists e, classify bs = Bad e /\ e <> InvalidChunk) \/ classify bs = HeadersOk.
+Proof.
+  intros C. pose proof (classify_definite bs C) as D.
+  assert (NC : classify bs <> Bad InvalidChunk).
+  { unfold classify. destruct (cut_crlf bs) as [[line rest]|]; [|discriminate].
+    assert (F : first_line line <> Bad InvalidChunk).
+    { unfold first_line. destruct (existsb _ line); [discriminate|]. destruct (split3 line) as [[[m t] v]|]; [|discriminate].
+      destruct (negb (method_ok m)); [discriminate|]. destruct (existsb _ t); [discriminate|].
+      destruct (has_fragment t); [discriminate|]. destruct (version_ok v); discriminate. }
+    destruct (first_line line) as [|e| |]; try discriminate.
+    - intros H. apply F. exact H.
+    - destruct (starts_with [13; 10] rest); [discriminate|]. destruct (cut_crlf2 rest) as [blk|]; [|discriminate].
+      unfold header_block. destruct (existsb _ blk); [discriminate|]. destruct (split_crlf _ blk); [discriminate|].
+      destruct (_ && _); discriminate. }
+  destruct (classify bs) as [|e| |]; auto.
+  - right. left. exists e. split; [reflexivity|]. intros ->. now apply NC.
+  - exfalso. now apply D.
+Qed.
+
+(* ================= bursts ================= *)
+
+Lemma cascade_shape c a hr : hres_ok hr -> shape (effs_of (cascade c a hr)).
+Proof.
+  intros H. unfold cascade. inversion H; subst.
+  - rewrite drain_exc. destruct (a_excreq a); cbn; [constructor|]. apply sh_reject; [cbn; auto|now right].
+  - rewrite drain_nil. constructor.
+  - rewrite drain_close. constructor.
+  - rewrite drain_httperror. cbn. apply sh_reject; [|apply resp_version_ok]. cbn in *. intuition.
+  - rewrite drain_request. cbn. destruct (a_app a); [apply (sh_request 500 _ true)|apply sh_request]; apply resp_version_ok.
+Qed.
+
+(* the cascade leaves the connection as it is or releases the pair *)
+Lemma cascade_conn c a hr : hres_ok hr -> conn_of (cascade c a hr) = c \/ conn_of (cascade c a hr) = fin c.
+Proof.
+  intros H. unfold cascade. inversion H; subst.
+  - rewrite drain_exc. destruct (a_excreq a); cbn; auto.
+  - rewrite drain_nil. now left.
+  - rewrite drain_close. now left.
+  - rewrite drain_httperror. now right.
+  - rewrite drain_request. now right.
+Qed.
+
+Definition pend_ok (p : pending) : Prop := hres_ok (snd p).
+
+Lemma phase1_ok secure h : forall t, Forall pend_ok (snd (fst (phase1 secure t h))).
+Proof.
+  induction h as [|o r IH]; intros t; [constructor|]. destruct o as [s a|s]; cbn [phase1].
+  - pose proof (on_read_ok secure (t s) a) as H. destruct (on_read secure (t s) a) as [[c hr] tags].
+    specialize (IH (upd t s c)). destruct (phase1 secure (upd t s c) r) as [[t' ps] tg]. cbn in *.
+    constructor; [exact H|exact IH].
+  - apply IH.
+Qed.
+
+Lemma phase2_shape ps : forall t, Forall pend_ok ps ->
+  Forall (fun x => shape (snd x)) (snd (fst (phase2 t ps))).
+Proof.
+  induction ps as [|[[s a] hr] r IH]; intros t F; [constructor|]. inversion F as [|? ? Hp Hr]; subst.
+  cbn [phase2]. pose proof (cascade_shape (t s) a hr Hp) as S.
+  destruct (cascade (t s) a hr) as [[c effs] tg]. specialize (IH (upd t s c) Hr).
+  destruct (phase2 (upd t s c) r) as [[t' es] tgs]. cbn in *. constructor; [exact S|exact IH].
+Qed.
+
+(* every read of a burst, whatever was queued around it, has one of the four outcomes *)
+Theorem burst_outcome secure h : Forall (fun x => shape (snd x)) (snd (burst secure h)).
+Proof.
+  unfold burst. pose proof (phase1_ok secure h empty_tables) as F.
+  destruct (phase1 secure empty_tables h) as [[t1 ps] tg]. cbn in F.
+  pose proof (phase2_shape ps t1 F) as S. destruct (phase2 t1 ps) as [[t2 es] tgs]. exact S.
+Qed.
+
+Lemma fin_empty : fin empty_conn = empty_conn.
+Proof. reflexivity. Qed.
+
+Lemma phase2_keeps_empty ps : forall t s, Forall pend_ok ps -> t s = empty_conn ->
+  fst (fst (phase2 t ps)) s = empty_conn.
+Proof.
+  induction ps as [|[[s' a] hr] r IH]; intros t s F E; [exact E|]. inversion F as [|? ? Hp Hr]; subst.
+  cbn [phase2]. pose proof (cascade_conn (t s') a hr Hp) as C.
+  destruct (cascade (t s') a hr) as [[c effs] tg]. unfold conn_of in C. cbn in C.
+  specialize (IH (upd t s' c) s Hr). destruct (phase2 (upd t s' c) r) as [[t' es] tgs]. cbn in *.
+  apply IH. unfold upd. destruct (Nat.eqb s s') eqn:Q; [|exact E].
+  apply Nat.eqb_eq in Q. subst s'. rewrite E in C. destruct C as [-> | ->]; reflexivity.
+Qed.
+
+Lemma phase1_app secure h1 h2 : forall t,
+  fst (fst (phase1 secure t (h1 ++ h2))) = fst (fst (phase1 secure (fst (fst (phase1 secure t h1))) h2)).
+Proof.
+  induction h1 as [|o r IH]; intros t; [reflexivity|]. destruct o as [s a|s]; cbn [phase1 app].
+  - destruct (on_read secure (t s) a) as [[c hr] tags]. specialize (IH (upd t s c)).
+    destruct (phase1 secure (upd t s c) (r ++ h2)) as [[t' ps] tg].
+    destruct (phase1 secure (upd t s c) r) as [[t'' ps'] tg']. cbn in *. exact IH.
+  - apply IH.
+Qed.
+
+Lemma phase1_other secure h : forall t s, (forall o, In o h -> op_sock o <> s) ->
+  fst (fst (phase1 secure t h)) s = t s.
+Proof.
+  induction h as [|o r IH]; intros t s H; [reflexivity|]. destruct o as [s' a|s']; cbn [phase1].
+  - assert (N : s' <> s) by (apply (H (Read s' a)); now left).
+    destruct (on_read secure (t s') a) as [[c hr] tags].
+    specialize (IH (upd t s' c) s (fun o I => H o (or_intror I))).
+    destruct (phase1 secure (upd t s' c) r) as [[t' ps] tg]. cbn in *. rewrite IH. unfold upd.
+    destruct (Nat.eqb s s') eqn:Q; [apply Nat.eqb_eq in Q; congruence|reflexivity].
+  - assert (N : s' <> s) by (apply (H (Disc s')); now left).
+    rewrite (IH (upd t s' empty_conn) s (fun o I => H o (or_intror I))). unfold upd.
+    destruct (Nat.eqb s s') eqn:Q; [apply Nat.eqb_eq in Q; congruence|reflexivity].
+Qed.
+
+(* a connection whose disconnect is queued after its last read leaves nothing behind, although the cascades of
+   its reads run after the disconnect *)
+Theorem burst_released secure h1 h2 s :
+  (forall o, In o h2 -> op_sock o <> s) ->
+  fst (burst secure (h1 ++ Disc s :: h2)) s = empty_conn.
+Proof.
+  intros H. unfold burst.
+  pose proof (phase1_ok secure (h1 ++ Disc s :: h2) empty_tables) as F.
+  pose proof (phase1_app secure h1 (Disc s :: h2) empty_tables) as A.
+  destruct (phase1 secure empty_tables (h1 ++ Disc s :: h2)) as [[t1 ps] tg]. cbn in F, A.
+  assert (E : t1 s = empty_conn).
+  { rewrite A. cbn [phase1]. rewrite phase1_other; [|exact H]. unfold upd. now rewrite Nat.eqb_refl. }
+  pose proof (phase2_keeps_empty ps t1 s F E) as K. destruct (phase2 t1 ps) as [[t2 es] tgs]. exact K.
+Qed.
+
+Theorem burst_never_crash secure h s effs :
+  In (s, effs) (snd (burst secure h)) -> ~ In ECrash effs /\ ~ In EOutOfFuel effs /\ (n_writes effs <= 1)%nat.
+Proof.
+  intros I. pose proof (burst_outcome secure h) as F. rewrite Forall_forall in F. specialize (F _ I). cbn in F.
+  destruct (shape_never_crash _ F) as [A B]. repeat split; auto. now apply shape_one.
+Qed.
